@@ -435,7 +435,10 @@ def cbmc_contract(ctx, sub, fn, file, clauses, callee_contracts=None, externs=()
         for i, p in enumerate(fd.params):
             cty = cp.ctype(p.type, for_param=True)
             nm = 'in_%s' % (p.name or i)
-            if cty.endswith('*') and not cty.startswith('const struct'):
+            if p.type.ptr and not p.type.ref and not cty.startswith('const struct'):
+                decls.append('%s %s;' % (cty, nm))      # a pointer parameter: the contract's is_fresh() describes what it points to
+                args.append(nm)
+            elif cty.endswith('*') and not cty.startswith('const struct'):
                 base = cty[:-1].strip()
                 decls.append('%s %s;' % (base, nm))
                 args.append('&' + nm)
